@@ -279,6 +279,144 @@ func (v *Verifier) globalVal(ev *Env, name string) (Val, bool) {
 // ---------------------------------------------------------------- functions
 
 func (v *Verifier) findFunc(pkgPath, rel string) *ssa.Function {
+	if fn := v.findFuncExact(pkgPath, rel); fn != nil {
+		return fn
+	}
+	// the function may have been renamed since the reference tree
+	base, anon := rel, ""
+	if k := strings.Index(rel, "$"); k >= 0 && !strings.HasPrefix(rel, "init$") {
+		base, anon = rel[:k], rel[k:]
+	}
+	for fn, oldRel := range renamedFrom {
+		if fn.Pkg != nil && fn.Pkg.Pkg.Path() == pkgPath && oldRel == base {
+			return v.findFuncExact(pkgPath, fn.RelString(fn.Pkg.Pkg)+anon)
+		}
+	}
+	return nil
+}
+
+// renamedFrom: functions of the module that carry a contract under another
+// name on the reference tree (value: that name, relative to the package).
+// Filled by detectRenames from the function table in obligations.lock.
+var renamedFrom = map[*ssa.Function]string{}
+
+// oldName: the name a function had on the reference tree (its current name if
+// it was not renamed). Call patterns in contracts, ghost counters and the
+// structural scans match against this name.
+func oldName(fn *ssa.Function) string {
+	if old, ok := renamedFrom[fn]; ok && fn.Pkg != nil {
+		if strings.HasPrefix(old, "(") {
+			// (*T).M -> (*pkgpath.T).M
+			star := ""
+			rest := old[1:]
+			if strings.HasPrefix(rest, "*") {
+				star, rest = "*", rest[1:]
+			}
+			return "(" + star + fn.Pkg.Pkg.Path() + "." + rest
+		}
+		return fn.Pkg.Pkg.Path() + "." + old
+	}
+	if fn.Parent() != nil {
+		if _, ok := renamedFrom[outermost(fn)]; ok {
+			o := outermost(fn)
+			return oldName(o) + strings.TrimPrefix(fn.String(), o.String())
+		}
+	}
+	return fn.String()
+}
+
+func outermost(fn *ssa.Function) *ssa.Function {
+	for fn.Parent() != nil {
+		fn = fn.Parent()
+	}
+	return fn
+}
+
+func typeSig(fn *ssa.Function) string {
+	sg := fn.Signature
+	var b strings.Builder
+	if sg.Recv() != nil {
+		b.WriteString("[" + types.TypeString(sg.Recv().Type(), nil) + "]")
+	}
+	b.WriteString("(")
+	for i := 0; i < sg.Params().Len(); i++ {
+		b.WriteString(types.TypeString(sg.Params().At(i).Type(), nil) + ",")
+	}
+	b.WriteString(")(")
+	for i := 0; i < sg.Results().Len(); i++ {
+		b.WriteString(types.TypeString(sg.Results().At(i).Type(), nil) + ",")
+	}
+	b.WriteString(")")
+	return b.String()
+}
+
+// moduleFuncTable: every named function and method of the module with its
+// receiver and parameter / result types (no names): "pkgpath::rel" -> types.
+func (v *Verifier) moduleFuncTable() map[string]string {
+	out := map[string]string{}
+	for _, fn := range v.moduleFuncs() {
+		if fn.Parent() != nil || fn.Pkg == nil || fn.Synthetic != "" {
+			continue
+		}
+		out[fn.Pkg.Pkg.Path()+"::"+fn.RelString(fn.Pkg.Pkg)] = typeSig(fn)
+	}
+	return out
+}
+
+// detectRenames: a function that carries a contract on the reference tree and
+// is missing now, while exactly one function that did not exist then has the
+// same package, receiver, parameter and result types, has been renamed.
+func (v *Verifier) detectRenames(ref map[string]string) {
+	renamedFrom = map[*ssa.Function]string{}
+	if len(ref) == 0 {
+		return
+	}
+	cur := v.moduleFuncTable()
+	var missing, added []string
+	for k := range ref {
+		if _, ok := cur[k]; !ok {
+			missing = append(missing, k)
+		}
+	}
+	for k := range cur {
+		if _, ok := ref[k]; !ok {
+			added = append(added, k)
+		}
+	}
+	sort.Strings(missing)
+	sort.Strings(added)
+	for _, m := range missing {
+		mp := m[:strings.Index(m, "::")]
+		var cands []string
+		for _, a := range added {
+			if strings.HasPrefix(a, mp+"::") && cur[a] == ref[m] {
+				cands = append(cands, a)
+			}
+		}
+		if len(cands) != 1 {
+			continue
+		}
+		// the candidate must not be the unique match of another missing name
+		n := 0
+		for _, m2 := range missing {
+			if strings.HasPrefix(cands[0], m2[:strings.Index(m2, "::")]+"::") && ref[m2] == cur[cands[0]] {
+				n++
+			}
+		}
+		if n != 1 {
+			continue
+		}
+		if _, has := v.cs.Funcs[cands[0]]; has {
+			continue // the new name has a contract of its own
+		}
+		a := cands[0]
+		if fn := v.findFuncExact(mp, a[strings.Index(a, "::")+2:]); fn != nil {
+			renamedFrom[fn] = m[strings.Index(m, "::")+2:]
+		}
+	}
+}
+
+func (v *Verifier) findFuncExact(pkgPath, rel string) *ssa.Function {
 	sp := v.spkgs[pkgPath]
 	if sp == nil {
 		return nil
@@ -503,6 +641,9 @@ func (v *Verifier) VerifyFunc(fc *FuncContract) (res *FuncResult) {
 			v.sigs = map[string]*FuncSig{}
 		}
 		v.sigs[fc.Full()] = sg
+		if old, ok := renamedFrom[outermost(fn)]; ok {
+			c.dropped[fmt.Sprintf("renamed since the reference tree: function `%s` is now `%s` (its contract and the call patterns that name it follow the rename)", old, outermost(fn).RelString(outermost(fn).Pkg.Pkg))] = true
+		}
 		c.alias = renameAliases(v.lockSigs[fc.Full()], sg)
 		for o, n := range c.alias {
 			c.dropped[fmt.Sprintf("renamed since the reference tree: `%s` is now `%s` in %s (contract clauses follow the rename)", o, n, fc.Full())] = true
